@@ -160,6 +160,7 @@ func newPrepWith(b *runner.Batch, n int, set world.Set) *prep {
 	A := w.Alpha()
 	ok := must(b, w.Invoke(A, w.H("balance"), "mint", p.u0.ScriptHash(), int64(100000), []byte{1}), "mint") &&
 		must(b, w.Invoke(A, w.H("balance"), "lock", []byte{7}, p.u0.ScriptHash(), util.Uint160{0xaa, 7}, int64(50), int64(3)), "lock until 3") &&
+		must(b, w.Invoke(A, w.H("balance"), "mint", w.H("balance"), int64(300), []byte{2}), "mint to the contract's own address") &&
 		must(b, w.Invoke(A, w.H("netmap"), "addPeerIR", nodeBlob(p.node0.PublicKey().Bytes(), 1)), "addPeerIR") &&
 		must(b, w.Invoke([]world.SignerSpec{world.G(world.Single(p.node0)), world.G(w.Alphabet)}, w.H("netmap"), "addNode", node2(p.node0.PublicKey().Bytes(), 1)), "addNode") &&
 		must(b, w.Invoke(A, w.H("netmap"), "newEpoch", int64(1)), "tick 1") &&
